@@ -17,6 +17,13 @@ solve_bin_pack(sizes, capacity, algorithm)
 Decimal inputs: every instance is generated on an integer grid (units of 1/den); the functions receive the floats
 nearest to k/den (what a user typing 0.35 passes); the contract and the oracles work on the integer units, so
 "fits", "better" and "fewer bins" are decided exactly.
+
+Input spaces: small-scope exhaustive + seeded random (this file: every call on newly built arguments, optimum by complete
+enumeration), and - checks/C16_round2.py - a size ladder (hundreds to thousands of items, optimum by an independent capacity DP
+/ certified by planted packings), fine-grained numerics (dyadic grids, exact fits), and history mode (programs of calls and
+in-place edits on the SAME argument objects inside one fresh process, every call judged on the contents at that call, last call
+compared with an isolated call in another fresh process; obligation ensures:same-answer-in-a-fresh-process).  The contract
+functions judge_knap / judge_bin are shared by all of them.
 """
 from __future__ import annotations
 
@@ -61,46 +68,91 @@ def knap_tag(wu, cu, den):
     return "{" + base + (", capacity 0}" if cu == 0 else "}")
 
 
-def eval_knap(case, tab=None):
-    """-> (failures [(obligation, detail)], info dict)."""
+BF_MAX = 14  # complete subset enumeration up to this many items, capacity DP (integer units) above
+
+
+def make_seq(units, den, as_float, container):
+    xs = [num(u, den, as_float) for u in units]
+    return tuple(xs) if container == "tuple" else xs
+
+
+def call_knap(case, values=None, weights=None):
+    """Call the real function. values/weights: live argument objects (history mode); built fresh from the case otherwise.
+    -> ("ok", solution, objective, status-name) | ("raised", text)"""
     from solvor.knapsack import solve_knapsack
+    den, vden = case.get("den", 1), case.get("vden", 1)
+    af, cont = bool(case.get("as_float", False)), case.get("container", "list")
+    if values is None:
+        values = make_seq(case["values_u"], vden, af, cont)
+        weights = values if case.get("alias") else make_seq(case["weights_u"], den, af, cont)
+    try:
+        r = solve_knapsack(values, weights, num(case["cap_u"], den, af), minimize=bool(case.get("minimize", False)))
+        return ("ok", r.solution, r.objective, getattr(r.status, "name", str(r.status)))
+    except Exception as e:  # valid input: must come back
+        return ("raised", f"{type(e).__name__}: {e}")
+
+
+def brief(xs, limit=14):
+    xs = list(xs)
+    return repr(xs) if len(xs) <= limit else f"[{', '.join(map(repr, xs[:6]))}, ... {len(xs)} entries ..., {', '.join(map(repr, xs[-3:]))}]"
+
+
+def judge_knap(case, outcome, tab=None, opt=None):
+    """The contract of solve_knapsack on one call. -> (failures [(obligation, detail)], info dict)."""
     from oracles import knapsack_bf as kb
+    from oracles import knapsack_dp as kd
 
     vu, wu, cu = case["values_u"], case["weights_u"], case["cap_u"]
     den, vden = case.get("den", 1), case.get("vden", 1)
     mini, af = bool(case.get("minimize", False)), bool(case.get("as_float", False))
     n = len(vu)
-    values = [num(v, vden, af) for v in vu]
-    weights = [num(w, den, af) for w in wu]
-    cap = num(cu, den, af)
     pre = f"{P}/solve_knapsack/"
-    shown = f"values={values} weights={weights} capacity={cap} minimize={mini}"
-    try:
-        r = solve_knapsack(values, weights, cap, minimize=mini)
-        sol, obj, st = r.solution, r.objective, getattr(r.status, "name", str(r.status))
-    except Exception as e:  # valid input: must come back
-        return [(pre + "returns", f"{shown}: raised {type(e).__name__}: {e}")], {}
+    shown = (f"values={brief(num(v, vden, af) for v in vu)} weights={brief(num(w, den, af) for w in wu)} "
+             f"capacity={num(cu, den, af)} minimize={mini}")
+    if outcome[0] != "ok":
+        return [(pre + "returns", f"{shown}: raised {outcome[1]}")], {}
+    _, sol, obj, st = outcome
     fails = []
     if st not in ("OPTIMAL", "FEASIBLE") or not isinstance(sol, (tuple, list)):
         return [(pre + "returns", f"{shown}: status {st}, solution {sol!r}")], {}
     if not all(is_int(i) and 0 <= i < n for i in sol) or len(set(sol)) != len(sol):
-        return [(pre + "ensures:distinct-indices-in-range", f"{shown}: solution {sol!r}")], {}
+        return [(pre + "ensures:distinct-indices-in-range", f"{shown}: solution {brief(sol)}")], {}
     tw = sum(wu[i] for i in sol)
     tv = sum(vu[i] for i in sol)
     if tw > cu:
         fails.append((pre + "ensures:weight-within-capacity",
-                      f"{shown}: chose {tuple(sol)} with weight {Fraction(tw, den)} > capacity {Fraction(cu, den)} (status {st})"))
+                      f"{shown}: chose {brief(sol)} with weight {Fraction(tw, den)} > capacity {Fraction(cu, den)} (status {st})"))
     if not close(obj, Fraction(tv, vden)):
-        fails.append((pre + "ensures:objective-is-sum-of-values", f"{shown}: objective {obj!r}, chosen {tuple(sol)} sum to {Fraction(tv, vden)}"))
-    if tab is None:
+        fails.append((pre + "ensures:objective-is-sum-of-values", f"{shown}: objective {obj!r}, chosen {brief(sol)} sum to {Fraction(tv, vden)}"))
+    if tab is None and opt is None and n <= BF_MAX:
         tab = kb.subset_table(vu, wu)
-    bv, bm = kb.best_from_table(tab, cu, mini)
+    wit, ww, how = None, None, "complete enumeration"
+    if tab is not None:
+        bv, bm = kb.best_from_table(tab, cu, mini)
+        wit, ww = tuple(i for i in range(n) if bm >> i & 1), tab[bm][0]
+    elif mini:
+        bv, wit, ww, how = 0, (), 0, "the empty set (values are non-negative)"
+    else:
+        bv, how = (opt if opt is not None else kd.dp_max(vu, wu, cu)), "capacity DP on the integer units"
+    if tw <= cu and (tv < bv if mini else tv > bv):
+        raise AssertionError(f"oracle defect: {how} says optimum {bv}, the library returned a feasible subset worth {tv}: {case}")
     if st == "OPTIMAL" and tw <= cu and (tv > bv if mini else tv < bv):
-        wit = tuple(i for i in range(n) if bm >> i & 1)
+        if wit is None:
+            bv2, w2 = kd.dp_witness(vu, wu, cu)
+            if bv2 != bv or kb.best_dp_int(vu, wu, cu) != bv:
+                raise AssertionError(f"oracle defect: the knapsack oracles disagree on {case}")
+            if w2 is not None:
+                wit, ww = tuple(w2), sum(wu[i] for i in w2)
+        better = (f"subset {brief(wit)} (weight {Fraction(ww, den)} <= {Fraction(cu, den)}) has value {Fraction(bv, vden)}" if wit is not None
+                  else f"a subset within capacity has value {Fraction(bv, vden)} (two independent DPs agree)")
         fails.append((pre + "ensures:OPTIMAL-implies-optimal" + knap_tag(wu, cu, den),
-                      f"{shown}: OPTIMAL with {tuple(sol)} value {Fraction(tv, vden)}, but subset {wit} "
-                      f"(weight {Fraction(tab[bm][0], den)} <= {Fraction(cu, den)}) has value {Fraction(bv, vden)}"))
+                      f"{shown}: OPTIMAL with {brief(sol)} value {Fraction(tv, vden)}, but {better} [{how}]"))
     return fails, {"status": st, "opt": bv, "total_w": sum(wu)}
+
+
+def eval_knap(case, tab=None, opt=None):
+    """-> (failures [(obligation, detail)], info dict)."""
+    return judge_knap(case, call_knap(case), tab, opt)
 
 
 def knap_nontrivial(vu, wu, cu, info):
@@ -109,34 +161,57 @@ def knap_nontrivial(vu, wu, cu, info):
 
 
 # ---------------------------------------------------------------------------------------------- bin-pack contract
-def eval_bin(case, opt_known=None):
-    from solvor.bin_pack import solve_bin_pack
-    from oracles import binpack_exact as be
+EXACT_BINS_MAX = 9  # exact optimum by subset decomposition up to this many positive items, certified bounds above
 
+
+def call_bin(case, sizes=None):
+    from solvor.bin_pack import solve_bin_pack
+    den, af = case.get("den", 1), bool(case.get("as_float", False))
+    if sizes is None:
+        sizes = make_seq(case["sizes_u"], den, af, case.get("container", "list"))
+    try:
+        r = solve_bin_pack(sizes, num(case["cap_u"], den, af), algorithm=case["algorithm"])
+        return ("ok", r.solution, r.objective, getattr(r.status, "name", str(r.status)))
+    except Exception as e:
+        return ("raised", f"{type(e).__name__}: {e}")
+
+
+def bin_opt_range(case, opt_known=None):
+    """(lo, hi) with lo <= OPT <= hi (hi None: no upper bound known)."""
+    from oracles import binpack_cert as bc
+    from oracles import binpack_exact as be
+    su, cu = case["sizes_u"], case["cap_u"]
+    if isinstance(opt_known, (tuple, list)):
+        return tuple(opt_known)
+    if opt_known is not None:
+        return opt_known, opt_known
+    if sum(1 for s in su if s > 0) <= EXACT_BINS_MAX:
+        o = be.opt_value(tuple(su), cu)
+        return o, o
+    return bc.opt_range(su, cu, case.get("witness"))
+
+
+def judge_bin(case, outcome, opt_known=None):
     su, cu, den = case["sizes_u"], case["cap_u"], case.get("den", 1)
     af, algo = bool(case.get("as_float", False)), case["algorithm"]
     n = len(su)
-    sizes = [num(s, den, af) for s in su]
-    cap = num(cu, den, af)
     pre = f"{P}/solve_bin_pack/"
-    shown = f"sizes={sizes} capacity={cap} algorithm={algo!r}"
-    try:
-        r = solve_bin_pack(sizes, cap, algorithm=algo)
-        asg, obj, st = r.solution, r.objective, getattr(r.status, "name", str(r.status))
-    except Exception as e:
-        return [(pre + "returns", f"{shown}: raised {type(e).__name__}: {e}")], {}
+    shown = f"sizes={brief(num(s, den, af) for s in su)} capacity={num(cu, den, af)} algorithm={algo!r}"
+    if outcome[0] != "ok":
+        return [(pre + "returns", f"{shown}: raised {outcome[1]}")], {}
+    _, asg, obj, st = outcome
     if st not in ("OPTIMAL", "FEASIBLE") or not isinstance(asg, (tuple, list)):
         return [(pre + "returns", f"{shown}: status {st}, solution {asg!r}")], {}
     fails = []
     if len(asg) != n or not all(is_int(b) for b in asg):
-        return [(pre + "ensures:every-item-one-bin", f"{shown}: assignments {asg!r} for {n} items")], {}
+        return [(pre + "ensures:every-item-one-bin", f"{shown}: assignments {brief(asg)} for {n} items")], {}
     try:
         k = int(obj)
         k_ok = (k == obj)
     except (TypeError, ValueError, OverflowError):
         k, k_ok = -1, False
     if not k_ok or sorted(set(asg)) != list(range(k)):
-        fails.append((pre + "ensures:bins-numbered-0..k-1", f"{shown}: objective {obj!r}, bin numbers used {sorted(set(asg))}"))
+        fails.append((pre + "ensures:bins-numbered-0..k-1", f"{shown}: objective {obj!r}, bin numbers used {brief(sorted(set(asg)))}"))
         k = len(set(asg))
     loads = {}
     for i, b in enumerate(asg):
@@ -150,14 +225,22 @@ def eval_bin(case, opt_known=None):
     lb = -(-total // cu)
     if k < lb:
         fails.append((pre + "ensures:k>=ceil(total/capacity)", f"{shown}: k={k} < ceil({Fraction(total, den)}/{Fraction(cu, den)})={lb}"))
-    opt = opt_known if opt_known is not None else be.opt_value(tuple(su), cu)
+    lo, hi = bin_opt_range(case, opt_known)
+    if not over and k_ok and k < lo:
+        raise AssertionError(f"oracle defect: a valid packing into {k} bins, but the lower bound says {lo}: {case}")
+    opt_txt = f"OPT={hi}" if lo == hi else f"OPT<={hi} (planted packing; proven lower bound {lo})"
     dec_tag = "{integer data}" if den == 1 or (cu % den == 0 and all(s % den == 0 for s in su)) else "{decimal data}"
-    if algo.lower().replace("_", "-").endswith("-decreasing") and 9 * k > 11 * opt + 6:
+    # sound with an upper bound only: k > 11/9*hi + 6/9 >= 11/9*OPT + 6/9
+    if hi is not None and algo.lower().replace("_", "-").endswith("-decreasing") and 9 * k > 11 * hi + 6:
         fails.append((pre + "ensures:decreasing-within-11/9-OPT+6/9" + dec_tag,
-                      f"{shown}: k={k} bins {tuple(asg)}, OPT={opt}, 11/9*OPT+6/9={Fraction(11 * opt + 6, 9)}"))
-    if st == "OPTIMAL" and k > opt and not over:
-        fails.append((pre + "ensures:OPTIMAL-implies-minimal", f"{shown}: OPTIMAL with k={k}, but {opt} bins suffice"))
-    return fails, {"status": st, "opt": opt, "k": k}
+                      f"{shown}: k={k} bins {brief(asg)}, {opt_txt}, 11/9*{hi}+6/9={Fraction(11 * hi + 6, 9)}"))
+    if hi is not None and st == "OPTIMAL" and k > hi and not over:
+        fails.append((pre + "ensures:OPTIMAL-implies-minimal", f"{shown}: OPTIMAL with k={k}, but {hi} bins suffice ({opt_txt})"))
+    return fails, {"status": st, "opt": hi if hi is not None else lo, "opt_known": lo == hi, "k": k}
+
+
+def eval_bin(case, opt_known=None):
+    return judge_bin(case, call_bin(case), opt_known)
 
 
 # ---------------------------------------------------------------------------------------------- task plumbing
@@ -453,7 +536,12 @@ TASKS = {f.__name__: f for f in (t_k_int_ordered, t_k_int_multiset, t_k_dec, t_k
 
 
 def work(task):
-    return task[0], TASKS[task[0]](*task[1:])
+    import time
+    from checks import C16_round2 as r2
+    t0 = time.process_time()
+    res = (TASKS.get(task[0]) or r2.TASKS[task[0]])(*task[1:])
+    res["cpu"] = time.process_time() - t0
+    return task[0], res
 
 
 # ---------------------------------------------------------------------------------------------- driver
@@ -531,30 +619,67 @@ def plan(ctx: Ctx):
               planted="complementary pairs filling a bin, ties, zeros, items = capacity; algorithm aliases")
     ctx.scope("bin packing perfect-packing instances", runs=rp, bins="1..12 full bins cut into 1..5 pieces, shuffled, optional zero-size items",
               optimum="known by construction")
-    return tasks
+    from checks import C16_round2 as r2
+    tasks += r2.plan_single(ctx, rng)
+    return tasks, r2.plan_history(ctx, rng)
 
 
 def run(ctx: Ctx):
+    from vf.prove import prove
+    # deductive part (specs/packing.py): solve_knapsack's DP (distinct indices, objective = sum of values, weight test at every
+    # OPTIMAL return, DP value = the knapsack recursion KN, integer data run unscaled), _to_int_capacity, check_non_negative
+    prove(ctx, ["specs.packing"], "C16", lemma_groups=["knap"])
+    ctx.assumptions.append(
+        "C16 proof: solve_knapsack is proved to return a selection whose value sum equals KN(vals, int_weights, n, int_capacity) (the "
+        "textbook recursion) with integer weight sum <= int_capacity; that KN is the maximum over all subsets within capacity (Bellman) "
+        "and that negating values turns minimisation into maximisation are paper lemmas; weights are assumed >= 0 (not checked by the "
+        "code: a negative weight raises IndexError or indexes from the end); _greedy_fallback is used through an assumed contract "
+        "(status FEASIBLE); the integer bridge (scale == 1, DP weights == weights) is proved for int-typed data only")
     use_repo()
-    tasks = plan(ctx)
+    from checks import C16_round2 as r2
+    n_self = r2.selftest_oracles(ctx.seed)  # the new oracles against complete enumeration, before anything is judged with them
+    tasks, hist_tasks = plan(ctx)
     # long tasks first (better pool balance), deterministic order of results kept by pmap
-    heavy = {"t_k_int_multiset": 0, "t_k_dec": 0, "t_k_fill": 1, "t_k_int_ordered": 2, "t_b_exh": 3}
-    tasks.sort(key=lambda t: heavy.get(t[0], 4))  # stable: long tasks first for pool balance, still deterministic
+    heavy = {"t_kl": -2, "t_bl": -1, "t_k_int_multiset": 0, "t_k_dec": 0, "t_k_fill": 1, "t_k_int_ordered": 2, "t_b_exh": 3}
+    tasks.sort(key=lambda t: (heavy.get(t[0], 4), -(t[2] * t[3]) if t[0] == "t_kl" else -t[2] if t[0] == "t_bl" else 0))  # stable, deterministic
+    # history programs first, in a pool of their own: its workers never call solvor themselves, every program runs in a
+    # child forked from such a worker, i.e. in a process where the library has been imported and never used
+    hist_results = pmap(r2.work_history, hist_tasks, chunksize=1)
     results = pmap(work, tasks, chunksize=1)
     viol = {}
     stats = {}
-    for _name, res in results:
+    cpu = {}
+    for res in hist_results:
         ctx.count(res["evals"], res["keys"], res["samples"])
+        cpu["history"] = cpu.get("history", 0.0) + res["cpu"]
+        for k, v in res["stats"].items():
+            stats[k] = stats.get(k, 0) + v
+        for d in res["defects"]:
+            ctx.defects.append(d)
+        for ob, case, det, size in res["viol"]:
+            e = viol.setdefault(ob, [0, []])
+            e[0] += 1
+            e[1].append(((0, size), case, det))
+    for name, res in results:
+        ctx.count(res["evals"], res["keys"], res["samples"])
+        cpu[name] = cpu.get(name, 0.0) + res["cpu"]
         for k, v in res["stats"].items():
             stats[k] = stats.get(k, 0) + v
         for ob, (cnt, exs) in res["viol"].items():
             e = viol.setdefault(ob, [0, []])
             e[0] += cnt
             e[1].extend(exs)
+    ctx.notes["cpu_seconds_by_task_family"] = {k: round(v, 1) for k, v in sorted(cpu.items())}
+    ctx.notes["oracle_selftest_comparisons"] = n_self
     for ob in sorted(viol):
         cnt, exs = viol[ob]
         exs.sort(key=lambda t: (tuple(t[0]), repr(t[1])))
         for _size, case, det in exs[:3]:
+            if case.get("fn") != "history":  # found in a pool worker that has made many calls: does the call fail on its own?
+                st, res = r2.in_fresh_process(r2.isolated, case)  # this (main) process has never called the library
+                if st == "ok" and not any(o == ob for o, _ in res[1]):
+                    det += (" [NOT reproduced as an isolated call in a fresh process: the answer depended on earlier calls made by "
+                            "the same worker process (history-dependent behaviour); the replay file will not reproduce it]")
             ctx.violation(ob, case, det)
     ctx.notes["failing_evaluations_by_obligation"] = {ob: viol[ob][0] for ob in sorted(viol)}
     ctx.notes["result_statistics"] = dict(sorted(stats.items()))
@@ -563,26 +688,63 @@ def run(ctx: Ctx):
                 "over-by-one-unit items. Non-trivial knapsack case: maximize, >=2 items, not all items fit together and the optimum is "
                 "positive. Non-trivial packing case: >=2 items and the optimum needs >=2 bins. Distinct = different (unit, multiset-sorted "
                 "item list as generated, capacity[, algorithm]); permutations, minimize and float-typed variants of one list are evaluated "
-                "but not counted as distinct")
+                "but not counted as distinct. Size ladder: one seeded instance per (size, capacity, family, order) tuple, distinct by "
+                "construction. History mode: a seeded program of operations per (task seed, position), executed in one fresh process; "
+                "counted as non-trivial: every judged call after the first of its program that is non-trivial by the rules above (these are "
+                "the calls made on objects the library has already seen); the isolated repetitions in fresh processes are counted as "
+                "evaluations only")
     ctx.assumptions += [
-        "decimal reading: a float argument stands for the decimal k/den it was generated from (den <= 10^6, magnitudes <= 3000); "
-        "feasibility, optimality and bin loads are judged on those decimals exactly. The code's absolute 1e-9 slack is far below one grid unit",
+        "decimal reading: a float argument stands for the decimal k/den it was generated from (den <= 10^6 or a power of two <= 2^26, "
+        "magnitudes <= 3000; ladder: up to 10^5 units); feasibility, optimality and bin loads are judged on those decimals exactly. The code's "
+        "documented absolute slack 1e-9 is at least 10x below one grid unit; gaps finer than that (e.g. 2^-40) are NOT exercised: there the "
+        "library accepts an overweight of up to 1e-9 by design",
         "values, weights, sizes are non-negative; capacity >= 0 (knapsack) / > 0 (bin packing); no NaN/inf",
-        "11/9*OPT+6/9 is evaluated against the exact optimum (enumeration, <=9 items) or an optimum known by construction (perfect packings)",
+        "11/9*OPT+6/9 is evaluated against the exact optimum (enumeration, <=9 items), an optimum known by construction (perfect packings), "
+        "or - size ladder / big histories - against a certified upper bound hi >= OPT (a checked planted packing): k > 11/9*hi+6/9 implies "
+        "k > 11/9*OPT+6/9, so every reported violation is genuine; when the proven lower bound (volume, items > capacity/2) equals hi the "
+        "optimum is known exactly (see result_statistics: 'optimum known' / 'optimum bounded')",
+        "history mode, obligation same-answer-in-a-fresh-process: the statement describes both functions as functions of their arguments, so a "
+        "call must return what the same call on equal, newly built arguments returns in a process that has made no other call",
     ]
     ctx.trusted += ["oracles/knapsack_bf.py (all 2^n subsets, integers)", "oracles/binpack_exact.py (subset decomposition, integers)",
-                    "fractions.Fraction -> float conversion (correctly rounded)"]
+                    "oracles/knapsack_dp.py (row DP over integer capacity; cross-checked against enumeration at the start of every run)",
+                    "oracles/binpack_cert.py (volume / big-item lower bound, checker for planted packings; cross-checked against the exact optimum at the start of every run)",
+                    "fractions.Fraction -> float conversion (correctly rounded)", "os.fork gives the child the parent's module state"]
 
 
 def replay(rec) -> int:
     use_repo()
     case = rec["case"]
+    want = rec.get("obligation")
+    if case.get("fn") == "history":
+        from checks import C16_round2 as r2
+        print(f"replay: program of {len(case['ops'])} operations, executed in one fresh process (unit 1/{case.get('den', 1)})")
+        st, viol, calls = r2.history_violations(case, ("last",))  # whole sequence; final call also as an isolated call in a fresh process
+        if st != "ok":
+            print("replay: the program could not be executed:", viol)
+            return 3
+        by_idx = {}
+        for idx, ob, det in viol:
+            by_idx.setdefault(idx, []).append((ob, det))
+        ci = 0
+        for i, op in enumerate(case["ops"]):
+            txt = repr(op) if len(repr(op)) < 160 else repr(op)[:150] + " ...]"
+            if op[0] in ("knap", "bin"):
+                _idx, _c, out, _f, _info = calls[ci]
+                ci += 1
+                print(f"  op {i}: {txt} -> {r2._show_out(out)}")
+                for ob, det in by_idx.get(i, []):
+                    print("      still violates:", ob, "::", det)
+            else:
+                print(f"  op {i}: {txt}")
+        if not viol:
+            print("  no violation")
+        return 1 if any(ob == want for _i, ob, _d in viol) or (viol and not want) else 0
     fails, info = (eval_knap(case) if case.get("fn") == "knapsack" else eval_bin(case))
-    print("replay case:", case)
+    print("replay case:", case if len(repr(case)) < 3000 else {k: (v if len(repr(v)) < 300 else f"<{len(v)} entries>") for k, v in case.items()})
     print("result info:", info)
     for ob, det in fails:
         print("  still violates:", ob, "::", det)
     if not fails:
         print("  no violation")
-    want = rec.get("obligation")
     return 1 if any(ob == want for ob, _ in fails) or (fails and not want) else 0
